@@ -810,6 +810,7 @@ type Facts struct {
 	Problems    []string            `json:"problems"`
 	Translated  map[string]string   `json:"translated"` // function -> "" (translated) | reason it was refused
 	GenWritten  []string            `json:"gen_written"`
+	LibPins     map[string]string   `json:"lib_pins"` // library function the model transcribes -> hash of its source
 }
 
 func writeIfChanged(path, content string) (bool, error) {
@@ -1155,6 +1156,7 @@ func main() {
 		}
 	}
 	sort.Strings(facts.GenWritten)
+	facts.LibPins = libPins(*repo)
 	b, _ := json.MarshalIndent(facts, "", " ")
 	if err := os.WriteFile(*factsPath, b, 0o644); err != nil {
 		fmt.Fprintln(os.Stderr, err)
